@@ -66,3 +66,88 @@ func ruleDecimalExact(c *Ctx, r *Report) {
 		r.OK("ytypes:FromFloat", "ytypes", "yang.FromFloat is not used by the validators")
 	}
 }
+
+// ---- R-CHOICE-TAG-LOOKUP (C02, C10) -----------------------------------------------------------
+
+// ruleChoiceTagLookup: choice and case nodes are not data nodes and never appear in a path tag —
+// at any position of the tag, because path compression puts a container name in front of the
+// name of a leaf within a choice (`path:"config/k1-leaf"`). The two functions that relate a tag to
+// the schema must therefore look through choice/case at every element, not only for
+// single-element tags.
+func ruleChoiceTagLookup(c *Ctx, r *Report) {
+	r.Rule("R-CHOICE-TAG-LOOKUP", "the functions that resolve a struct field's path tag against the schema look through choice/case nodes at every path element: util.childSchema's descent loop falls back to the choice/case children of the current node on a Dir miss, and ytypes.hasRelativePath's walk towards the root skips choice/case ancestors", 2)
+	if f := c.MustFunc(r, "util", "childSchema"); f != nil {
+		info := f.Info()
+		target := c.Func("util", "FindFirstNonChoiceOrCase")
+		ok, found := false, false
+		var pos token.Pos = f.Decl.Pos()
+		ast.Inspect(f.Decl.Body, func(x ast.Node) bool {
+			loop, isFor := x.(*ast.ForStmt)
+			if !isFor || found {
+				return !found
+			}
+			// the descent loop is the one that indexes a Dir map.
+			var idx *ast.IndexExpr
+			ast.Inspect(loop.Body, func(y ast.Node) bool {
+				if ie, ok := y.(*ast.IndexExpr); ok && idx == nil {
+					if se, ok := ast.Unparen(ie.X).(*ast.SelectorExpr); ok && se.Sel.Name == "Dir" {
+						idx = ie
+					}
+				}
+				return true
+			})
+			if idx == nil {
+				return true
+			}
+			found, pos = true, loop.Pos()
+			// the object the loop descends from (childSchema in `childSchema.Dir[p]`).
+			cursor := ObjOf(info, idx.X.(*ast.SelectorExpr).X)
+			ast.Inspect(loop.Body, func(y ast.Node) bool {
+				call, isCall := y.(*ast.CallExpr)
+				if !isCall || target == nil {
+					return true
+				}
+				g := c.funcOfCallee(Callee(info, call))
+				if g == nil {
+					return true
+				}
+				reaches := false
+				for _, h := range c.astReach(g) {
+					if h.Obj == target.Obj {
+						reaches = true
+					}
+				}
+				// the fallback must look below the current node of the descent, not below the root.
+				if reaches && len(call.Args) > 0 && cursor != nil && ObjOf(info, call.Args[0]) == cursor {
+					ok = true
+				}
+				return true
+			})
+			return false
+		})
+		switch {
+		case !found:
+			r.Und("util.childSchema:descent-loop", c.Pos(f.Decl.Pos()), "no loop that indexes a Dir map found")
+		default:
+			r.Check(ok, "util.childSchema:descent-loop", c.Pos(pos), "a Dir miss falls back to the choice/case children of the current node",
+				"util.childSchema's descent loop gives up on a Dir miss without looking through the choice/case children of the node it has reached: a leaf within a choice below a compressed-out container (tag `config/k1-leaf`) has no schema, and SetNode/GetNode/DeleteNode fail with 'could not find schema' for it and for every field after it")
+		}
+	}
+	if f := c.MustFunc(r, "ytypes", "hasRelativePath"); f != nil {
+		info := f.Info()
+		ok := false
+		for _, call := range CallsIn(info, f.Decl.Body, P("util")+".IsChoiceOrCase") {
+			// inside the upward loop.
+			for n := ast.Node(call); n != nil; n = c.parentMap(f.File)[n] {
+				if _, isFor := n.(*ast.ForStmt); isFor {
+					ok = true
+				}
+				if n == f.Decl {
+					break
+				}
+			}
+		}
+		r.Check(ok, "ytypes.hasRelativePath:skips-choice-case", c.Pos(f.Decl.Pos()), "the walk towards the root tests util.IsChoiceOrCase on the ancestor",
+			"ytypes.hasRelativePath compares every ancestor's name with the path, choice and case nodes included: the field for `config/k1-leaf` (leaf within a choice below config) is never found ('struct field k1-leaf not found in parent')")
+	}
+}
